@@ -93,6 +93,9 @@ def mk_shared():
                              border_top=[["", ""], ["", "dotted"], ["dashed", ""], ["", ""]]),
         "fn2": rtf.RTFFootnote(text="F0"),
         "lastbody": rtf.RTFBody(),
+        # third sharing group (POOL3): a table footnote (as_table default) and a coloured title held by several documents
+        "fn3": rtf.RTFFootnote(text="F0"),
+        "ctitle": rtf.RTFTitle(text="T0", text_color="red"),
     }
 
 
@@ -152,6 +155,13 @@ def _pool():
         "mT": lambda sh: rtf.RTFDocument(df=DF5(), rtf_body=sh["lastbody"]),
         # a multi-section document whose later section paginates by subline_by, with title and page header
         # (what one section's encode writes into a component is read by the section loop of the next encode)
+        # POOL3 -- fT / fF hold one as_table footnote: fF is a figure document (construction is refused: a figure document
+        # cannot carry a table footnote), fT a table; cA / cB hold one coloured title but have different palettes
+        "fT": lambda sh: rtf.RTFDocument(df=DF2(), rtf_footnote=sh["fn3"]),
+        "fF": lambda sh: rtf.RTFDocument(rtf_figure=rtf.RTFFigure(figures=[_png_path()], fig_width=2, fig_height=1.5), rtf_footnote=sh["fn3"]),
+        "cA": lambda sh: rtf.RTFDocument(df=DF2(), rtf_title=sh["ctitle"]),
+        "cB": lambda sh: rtf.RTFDocument(df=DF2(), rtf_title=sh["ctitle"], rtf_body=rtf.RTFBody(text_color="blue")),
+        "cC": lambda sh: rtf.RTFDocument(df=[DF2(), DF3()], rtf_title=sh["ctitle"], rtf_body=[rtf.RTFBody(text_color="green"), rtf.RTFBody(text_background_color="yellow")]),
         "mSub": lambda sh: rtf.RTFDocument(df=[DF2(), DFG()], rtf_body=[rtf.RTFBody(), rtf.RTFBody(subline_by=["k"])],
                                            rtf_title=rtf.RTFTitle(text="T0"), rtf_page_header=rtf.RTFPageHeader()),
     }
@@ -159,11 +169,14 @@ def _pool():
 
 POOL_NAMES = ["plain", "red", "paged", "fnall", "grouped", "bad", "late", "multi", "multiw", "narrow", "wide", "figure", "shA", "shB", "shC"]
 POOL2_NAMES = ["gA", "gB", "gC", "gD", "mBad", "mBadF", "mOk", "mT", "mSub"]
-ALL_NAMES = POOL_NAMES + POOL2_NAMES
+POOL3_NAMES = ["fT", "fF", "cA", "cB", "cC"]
+ALL_NAMES = POOL_NAMES + POOL2_NAMES + POOL3_NAMES
+GROUPS = [POOL_NAMES, POOL2_NAMES, POOL3_NAMES]
 SHARES = {"shA": ("body", "header", "page", "sub", "fn", "df"), "shB": ("body", "header", "page", "sub", "fn", "df"),
           "shC": ("body", "header", "page"),
-          "gA": ("gbody",), "gB": ("gbody", "fn2"), "gC": ("gbody",), "gD": ("fn2",), "mBad": ("lastbody",), "mBadF": ("fn2",), "mOk": ("fn2", "lastbody"), "mT": ("lastbody",)}
-NCOLS = {"shA": 2, "shB": 2, "shC": 1, "gA": 2, "gB": 2, "gC": 2, "gD": 2, "mBad": 3, "mBadF": 3, "mOk": 3, "mT": 3}
+          "gA": ("gbody",), "gB": ("gbody", "fn2"), "gC": ("gbody",), "gD": ("fn2",), "mBad": ("lastbody",), "mBadF": ("fn2",), "mOk": ("fn2", "lastbody"), "mT": ("lastbody",),
+          "fT": ("fn3",), "fF": ("fn3",), "cA": ("ctitle",), "cB": ("ctitle",), "cC": ("ctitle",)}
+NCOLS = {"shA": 2, "shB": 2, "shC": 1, "gA": 2, "gB": 2, "gC": 2, "gD": 2, "mBad": 3, "mBadF": 3, "mOk": 3, "mT": 3, "fT": 2, "fF": 2, "cA": 2, "cB": 2, "cC": 2}
 
 
 def construct(name, shared):
@@ -190,7 +203,12 @@ def _main():
         sys.stdout = io.StringIO()
         try:
             sh = mk_shared()
-            out[name] = encode_result(construct(name, sh))
+            try:
+                doc = construct(name, sh)
+            except Exception as e:  # noqa: BLE001 - a document whose construction is refused is a legitimate pool member
+                out[name] = ["construct-exc", type(e).__name__]
+                continue
+            out[name] = encode_result(doc)
         finally:
             sys.stdout = real
     json.dump(out, real)
